@@ -780,6 +780,9 @@ pub fn run_map<K: KeyT, V: ValT>(lines: &[String], out: &mut String) {
                 Err(p) => {
                     if let Some(h) = p.downcast_ref::<HvPanic>() {
                         leak_ok = h.0 == "drop";
+                    if leak_ok {
+                        with_ctx(|c| c.drop_panics += 1);
+                    }
                         let _ = writeln!(out, "RET unwind {}", h.0);
                     } else {
                         let _ = writeln!(out, "RET libpanic ?");
@@ -877,6 +880,9 @@ pub fn run_map<K: KeyT, V: ValT>(lines: &[String], out: &mut String) {
             Err(p) => {
                 if let Some(h) = p.downcast_ref::<HvPanic>() {
                     leak_ok = h.0 == "drop";
+                    if leak_ok {
+                        with_ctx(|c| c.drop_panics += 1);
+                    }
                     let _ = writeln!(out, "RET unwind {}", h.0);
                 } else if let Some(s) = p.downcast_ref::<&str>() {
                     let _ = writeln!(out, "RET libpanic {}", s.replace('\n', " "));
@@ -953,5 +959,6 @@ pub fn run_map<K: KeyT, V: ValT>(lines: &[String], out: &mut String) {
     drop(m);
     drop(other);
     let (live, blocks, dd, aerr) = with_ctx(|c| (c.live.len(), c.blocks.len(), c.double_drops.len(), c.alloc_errors.clone()));
-    let _ = writeln!(out, "END live={} blocks={} double_drops={} alloc_errors={}", live, blocks, dd, aerr.len());
+    let drop_panics = with_ctx(|c| c.drop_panics);
+    let _ = writeln!(out, "END live={} blocks={} double_drops={} alloc_errors={} drop_panics={}", live, blocks, dd, aerr.len(), drop_panics);
 }
